@@ -104,6 +104,27 @@ func init() {
 		"fmt.Errorf":  fmtErrorf,
 		"fmt.Sprint":  fmtSprint,
 		"math.Trunc":  mathTrunc,
+		"strconv.Itoa": func(in *Interp, fr *frame, fn *ssa.Function, a []Value) (Value, bool) {
+			x := a[0].(SInt)
+			if x.T == nil {
+				return nil, false
+			}
+			return in.symItoa(x, true), true
+		},
+		"strconv.FormatInt": func(in *Interp, fr *frame, fn *ssa.Function, a []Value) (Value, bool) {
+			x, b := a[0].(SInt), a[1].(SInt)
+			if x.T == nil || b.T != nil || b.V != 10 {
+				return nil, false
+			}
+			return in.symItoa(x, true), true
+		},
+		"strconv.FormatUint": func(in *Interp, fr *frame, fn *ssa.Function, a []Value) (Value, bool) {
+			x, b := a[0].(SInt), a[1].(SInt)
+			if x.T == nil || b.T != nil || b.V != 10 {
+				return nil, false
+			}
+			return in.symItoa(x, false), true
+		},
 		"math.Float64bits": func(in *Interp, fr *frame, fn *ssa.Function, a []Value) (Value, bool) {
 			f := a[0].(SFloat)
 			if f.T != nil {
